@@ -320,3 +320,42 @@ Section Cfg.
     (if is_nil host then first_val (mget HOST cfg) else host,
      own ++ filter (fun kv => not_host kv && negb (mhas (fst kv) own)) cfg).
 End Cfg.
+
+(* ---------- middlewares (provider.go Acquire: BuildRequest, then every configured middleware's
+   UpdateRequest in order; an error makes Acquire hand the ammo back as unusable) ----------
+   MwDate: middleware/headerdate: req.Header.Add(name, <clock reading>) - Add canonicalises the name;
+           the value is the clock (the harness checks it against the wall clock and the middleware's
+           location and replaces it by [DATE_STAMP]);
+   MwFailAt n: a middleware whose UpdateRequest fails at its n-th call and otherwise leaves the request alone;
+   MwInitFail: a middleware whose InitMiddleware fails (Provider.Run returns before the first Scan). *)
+Inductive mw := MwDate (name : bytes) | MwFailAt (n : N) | MwInitFail.
+
+Definition DATE : bytes := [68; 97; 116; 101].
+Definition DATE_STAMP : bytes := [64; 110; 111; 119].   (* "@now" *)
+
+Definition mw_update (i : N) (m : mw) (r : mreqsum) : option mreqsum :=
+  match m with
+  | MwDate name =>
+      let nm := if is_nil name then DATE else name in
+      Some {| mr_method := mr_method r; mr_url := mr_url r; mr_host := mr_host r;
+              mr_headers := madd (canon_key nm) DATE_STAMP (mr_headers r);
+              mr_body := mr_body r; mr_tag := mr_tag r |}
+  | MwFailAt n => if N.eqb i n then None else Some r
+  | MwInitFail => Some r
+  end.
+
+Fixpoint mws_update (i : N) (ms : list mw) (r : mreqsum) : option mreqsum :=
+  match ms with
+  | [] => Some r
+  | m :: rest => match mw_update i m r with Some r' => mws_update i rest r' | None => None end
+  end.
+
+(* the i-th Acquire (i >= 1) of a provider with middlewares [ms], on what BuildRequest gave *)
+Definition acquire_m (ms : list mw) (i : N) (b : bres) : bres :=
+  match b with
+  | MBOk r => match mws_update i ms r with Some r' => MBOk r' | None => MBInvalid end
+  | x => x
+  end.
+
+Definition mws_init_ok (ms : list mw) : bool :=
+  negb (existsb (fun m => match m with MwInitFail => true | _ => false end) ms).
